@@ -317,6 +317,48 @@ class ArgumentShared(WorldError):
     sibling alias using the same variable) had edited"""
 
 
+class ResolverMixup(WorldError):
+    """the resolver OBJECT registered for one field was called for another field (resolver memo keyed by ==/hash)"""
+
+
+class UnhashableResolver(object):
+    """a callable object that is not hashable (what a plain @dataclass with __call__ is)"""
+    __hash__ = None
+
+    def __init__(self, fn, owner):
+        self.fn, self.owner = fn, owner
+
+    def __eq__(self, other):
+        return isinstance(other, UnhashableResolver) and self.owner == other.owner
+
+    def __call__(self, root, ctx, info, **args):
+        if (info.parent_type.name, info.field_definition.name) != self.owner:
+            raise ResolverMixup("resolver of %s.%s called for %s.%s" % (self.owner + (info.parent_type.name, info.field_definition.name)))
+        return self.fn(root, ctx, info, **args)
+
+
+class EqualResolver(object):
+    """hashable callable objects that all compare EQUAL (frozen dataclass with a compare=False field) but belong to
+    different fields"""
+
+    def __init__(self, fn, owner):
+        self.fn, self.owner = fn, owner
+
+    def __eq__(self, other):
+        return isinstance(other, EqualResolver)
+
+    def __hash__(self):
+        return 7
+
+    def __call__(self, root, ctx, info, **args):
+        if (info.parent_type.name, info.field_definition.name) != self.owner:
+            raise ResolverMixup("resolver of %s.%s called for %s.%s" % (self.owner + (info.parent_type.name, info.field_definition.name)))
+        return self.fn(root, ctx, info, **args)
+
+    def method(self, root, ctx, info, **args):        # bound methods of equal instances
+        return self(root, ctx, info, **args)
+
+
 MUT = "__mut_"
 
 
@@ -372,6 +414,7 @@ class Holder:
 def install_world(schema, holder):
     from canon_schema import ty_of
     from py_gql.schema import InterfaceType, UnionType
+    from py_gql.exc import ResolverError as _ResolverError
 
     WErr = werr_class()
 
@@ -440,6 +483,13 @@ def install_world(schema, holder):
         # (2) the public look-ahead helper must not raise for a validated operation
         if info.nodes[0].selection_set is not None:
             info.selected_fields()
+        for d in (info.nodes[0].directives or []):
+            dn = d.name.value
+            if dn not in ("skip", "include") and dn in info.schema.directives:
+                try:
+                    info.get_directive_arguments(dn)      # a value that cannot be coerced is a ResolverError (field error)
+                except _ResolverError:                    # this resolver goes on without the directive
+                    pass
         salt = fnv("%d|%s" % (w.seed, "/".join(str(p) for p in info.path)))
         if o[0] == "err":
             # the error object may arrive with `path` / `nodes` ALREADY set (forwarded from upstream): the response
@@ -459,6 +509,19 @@ def install_world(schema, holder):
         return raw_to_py(o[1], w.seed % len(OBJ_STYLES), salt)
 
     schema.default_resolver = resolver
+    # resolver OBJECTS on one field in three: unhashable callables, callables that compare equal although they belong to
+    # different fields, bound methods of equal instances; the others go through the default resolver (a function)
+    from py_gql.schema import ObjectType
+    for t in schema.types.values():
+        if isinstance(t, ObjectType) and not t.name.startswith("__"):
+            for f in t.fields:
+                k = fnv("%s.%s" % (t.name, f.name)) % 9
+                if k == 0:
+                    f.resolver = UnhashableResolver(resolver, (t.name, f.name))
+                elif k == 1:
+                    f.resolver = EqualResolver(resolver, (t.name, f.name))
+                elif k == 2:
+                    f.resolver = EqualResolver(resolver, (t.name, f.name)).method
     return resolver
 
 
@@ -658,6 +721,8 @@ def run_impl(schema, document, variables, opname, validate=True):
     from py_gql.exc import (GraphQLSyntaxError, ValidationError, ExecutionError, VariableCoercionError)
     try:
         r = graphql_blocking(schema, document, variables=variables, operation_name=opname)
+    except ResolverMixup:
+        return {"internal": "ResolverOfAnotherFieldCalled"}
     except ArgumentLeak:
         return {"internal": "ArgumentLeakedFromEarlierRequest"}
     except ArgumentShared:
